@@ -92,6 +92,12 @@ def extract(repo):
     return t
 
 
+# last known-good extraction (tangelo as of the C18 check's first run); used by the check only as a clearly
+# labelled fallback when extract() fails closed, so that the search for a concrete failing input can go on
+FALLBACK = {"default_n_shots": 0, "default_msq_first": False, "default_epsilon": Fraction(1e-2), "conversion": "round_per_key",
+            "remove_default": Fraction(0), "split_defaults": [Fraction(0), Fraction(0)], "sign_base": -1, "parity_modulus": 2}
+
+
 def _q(x):
     x = Fraction(x)
     return "(Q2Qc (%d # %d))" % (x.numerator, x.denominator)
